@@ -106,7 +106,7 @@ Hint Resolve pres_kp : pres.
 Lemma pres_me f : forall id route focus, pres I (me f id route focus).
 Proof.
   induction f as [|f IH]; intros id route focus; cbn [me]; [apply pres_raise|].
-  apply pres_bind; [apply pres_rd|]. intros n.
+  apply pres_bind; [apply pres_rd|]. intros n. destruct (is_dis n); [apply pres_ret|].
   destruct (nk n); destruct route as [|p rest]; try solve [pres_tac].
   (* KFrame, p :: rest *)
   apply pres_bind; [apply pres_get_heap|]. intros h.
@@ -319,11 +319,11 @@ Qed.
 
 (* every constructor yields a valid focus list; the Frame clause holds iff the spec names an existing part *)
 Definition spec_ok (s : spec) : Prop :=
-  match s with SFrame _ _ _ _ _ hd ft part => parts_ok hd ft part | _ => True end.
+  match s with SFrame _ _ _ _ _ _ hd ft part => parts_ok hd ft part | _ => True end.
 
 Lemma construct_ok strict fuel h s : (strict = true -> spec_ok s) -> node_ok strict (construct fuel h s).
 Proof.
-  intros Hs. destruct s as [wd box ht wt sl keys|k wd box ht wt f ch dv cw vs|wd box ht wt body hd ft part|wd box ht wt top bot]; cbn [construct].
+  intros Hs. destruct s as [wd box ht wt dc sl keys|k wd box ht wt dc f ch dv cw vs|wd box ht wt dc body hd ft part|wd box ht wt dc top bot]; cbn [construct].
   - split; [exact valid_empty|]. cbn. discriminate.
   - destruct k; (split; [|cbn; discriminate]); cbn [n_c];
       try apply init_list_valid; try apply init_grid_valid;
